@@ -376,6 +376,11 @@ func (e *exprCtx) expr(v ssa.Value) string {
 					delete(e.seen, a)
 					return s
 				}
+				// never written: the zero value, whatever the variable is called and however it came about
+				// (an unassigned named result, `var x T`, an empty composite literal)
+				if allocNeverWritten(a) {
+					return "zero(" + typeName(deref(a.Type())) + ")"
+				}
 				return "*" + e.expr(a)
 			}
 			return e.expr(x.X)
@@ -401,6 +406,15 @@ func (e *exprCtx) expr(v ssa.Value) string {
 				if sortKey(b) < sortKey(a) {
 					a, b = b, a
 				}
+			}
+		}
+		// for unsigned operands `0 < x` is `x != 0` and `x <= 0` is `x == 0`
+		if (op == token.LSS || op == token.LEQ) && isUnsigned(x.X.Type()) {
+			if op == token.LSS && a == "0" {
+				return "(0 != " + b + ")"
+			}
+			if op == token.LEQ && b == "0" {
+				return "(0 == " + a + ")"
 			}
 		}
 		return "(" + a + " " + op.String() + " " + b + ")"
@@ -2175,9 +2189,23 @@ func (c *Ctx) valueCases(v ssa.Value, blk *ssa.BasicBlock) []valueCase {
 			break
 		}
 		if phi, ok := v.(*ssa.Phi); ok && depth < 4 {
+			// edges that the branch between the phi and the use rules out are not cases
+			d := phi.Block()
+			oc, isFlag := flagOutcomes(d)
+			side := -1
+			if isFlag && blk != nil {
+				if edgeDominates(d, 0, blk) {
+					side = 1
+				} else if edgeDominates(d, 1, blk) {
+					side = 0
+				}
+			}
 			for k, e := range phi.Edges {
-				if k < len(phi.Block().Preds) {
-					walk(e, edgeGuards(c, phi.Block().Preds[k], phi.Block()), depth+1)
+				if k < len(d.Preds) {
+					if side >= 0 && oc[k] >= 0 && oc[k] != side {
+						continue
+					}
+					walk(e, edgeGuards(c, d.Preds[k], d), depth+1)
 				}
 			}
 			return
@@ -2186,4 +2214,47 @@ func (c *Ctx) valueCases(v ssa.Value, blk *ssa.BasicBlock) []valueCase {
 	}
 	walk(v, c.guardStrs(blk), 0)
 	return out
+}
+
+// allocNeverWritten: no store targets the cell or any part of it and its address does not escape to a call.
+func allocNeverWritten(a *ssa.Alloc) bool {
+	refs := a.Referrers()
+	if refs == nil {
+		return false
+	}
+	var ok func(v ssa.Value, depth int) bool
+	ok = func(v ssa.Value, depth int) bool {
+		rs := v.Referrers()
+		if rs == nil || depth > 3 {
+			return false
+		}
+		for _, r := range *rs {
+			switch u := r.(type) {
+			case *ssa.Store:
+				if u.Addr == v {
+					return false
+				}
+				if u.Val == v {
+					return false // address stored somewhere
+				}
+			case *ssa.UnOp:
+				if u.Op != token.MUL {
+					return false
+				}
+			case *ssa.FieldAddr:
+				if !ok(u, depth+1) {
+					return false
+				}
+			case *ssa.IndexAddr:
+				if !ok(u, depth+1) {
+					return false
+				}
+			case *ssa.DebugRef:
+			default:
+				return false
+			}
+		}
+		return true
+	}
+	return ok(a, 0)
 }
